@@ -7,6 +7,7 @@ import (
 	"fmt"
 	"regexp/syntax"
 	"slices"
+	"strings"
 
 	"github.com/grafana/regexp"
 
@@ -118,4 +119,128 @@ func VerifCaseNgrams(r0, r1, r2 rune) [][3]rune {
 		out = append(out, ngramToRunes(v))
 	}
 	return out
+}
+
+// ---- regexp literal extraction (regexpToMatchTreeRecursive) ----
+
+func verifRxTokens(r *syntax.Regexp, out *[]string) {
+	add := func(s string) { *out = append(*out, s) }
+	runes := func(rs []rune) string {
+		if len(rs) == 0 {
+			return "-"
+		}
+		var xs []string
+		for _, x := range rs {
+			xs = append(xs, fmt.Sprint(int(x)))
+		}
+		return strings.Join(xs, ",")
+	}
+	switch r.Op {
+	case syntax.OpLiteral:
+		f := "0"
+		if r.Flags&syntax.FoldCase != 0 {
+			f = "1"
+		}
+		add("L:" + f + ":" + runes(r.Rune))
+	case syntax.OpCharClass:
+		add("C:" + runes(r.Rune))
+	case syntax.OpAnyChar:
+		add("A")
+	case syntax.OpAnyCharNotNL:
+		add("a")
+	case syntax.OpBeginLine:
+		add("bl")
+	case syntax.OpEndLine:
+		add("el")
+	case syntax.OpBeginText:
+		add("bt")
+	case syntax.OpEndText:
+		add("et")
+	case syntax.OpWordBoundary:
+		add("wb")
+	case syntax.OpNoWordBoundary:
+		add("nwb")
+	case syntax.OpEmptyMatch:
+		add("E")
+	case syntax.OpNoMatch:
+		add("N")
+	case syntax.OpCapture:
+		add("cap")
+		verifRxTokens(r.Sub[0], out)
+	case syntax.OpStar:
+		add("star")
+		verifRxTokens(r.Sub[0], out)
+	case syntax.OpPlus:
+		add("plus")
+		verifRxTokens(r.Sub[0], out)
+	case syntax.OpQuest:
+		add("quest")
+		verifRxTokens(r.Sub[0], out)
+	case syntax.OpRepeat:
+		add(fmt.Sprintf("rep:%d:%d", r.Min, r.Max))
+		verifRxTokens(r.Sub[0], out)
+	case syntax.OpConcat:
+		add(fmt.Sprintf("cat:%d", len(r.Sub)))
+		for _, s := range r.Sub {
+			verifRxTokens(s, out)
+		}
+	case syntax.OpAlternate:
+		add(fmt.Sprintf("alt:%d", len(r.Sub)))
+		for _, s := range r.Sub {
+			verifRxTokens(s, out)
+		}
+	default:
+		add("?")
+	}
+}
+
+func verifLitTokens(mt matchTree, out *[]string) {
+	add := func(s string) { *out = append(*out, s) }
+	switch t := mt.(type) {
+	case *bruteForceMatchTree:
+		add("T")
+	case *noMatchTree:
+		add("Z")
+	case *substrMatchTree:
+		var xs []string
+		for _, x := range t.query.Pattern {
+			xs = append(xs, fmt.Sprint(int(x)))
+		}
+		add("S:" + verifBool(t.caseSensitive) + ":" + strings.Join(xs, ","))
+	case *andLineMatchTree:
+		add(fmt.Sprintf("L:%d", len(t.children)))
+		for _, c := range t.children {
+			verifLitTokens(c, out)
+		}
+	case *andMatchTree:
+		add(fmt.Sprintf("A:%d", len(t.children)))
+		for _, c := range t.children {
+			verifLitTokens(c, out)
+		}
+	case *orMatchTree:
+		add(fmt.Sprintf("O:%d", len(t.children)))
+		for _, c := range t.children {
+			verifLitTokens(c, out)
+		}
+	default:
+		add("R") // e.g. a regexpMatchTree for a short literal (not produced any more)
+	}
+}
+
+// VerifExtract runs regexpToMatchTreeRecursive on the parsed regexp (content, the given case sensitivity) and returns
+// the syntax tree and the extracted literal tree with its flags, both as prefix token lists.
+func VerifExtract(s zoekt.Searcher, re *syntax.Regexp, caseSensitive bool) (ast string, out string, err error) {
+	d, ok := s.(*indexData)
+	if !ok {
+		return "", "", fmt.Errorf("not an indexData")
+	}
+	var toks []string
+	verifRxTokens(re, &toks)
+	mt, isEq, singleLine, err := d.regexpToMatchTreeRecursive(re, ngramSize, false, caseSensitive)
+	if err != nil {
+		return "", "", err
+	}
+	var lit []string
+	verifLitTokens(mt, &lit)
+	return strings.Join(toks, ";"), fmt.Sprintf("tree=%s eq=%s sl=%s", strings.Join(lit, ";"), verifBool(isEq), verifBool(singleLine)), nil
 }
